@@ -25,7 +25,7 @@ import _common  # noqa: E402
 
 MODS = "#*_?"
 BASES = ["foo", "3", "foo+1", "", "..."]
-NONSTRING = [3, None, ("a",), b"a", 3.5]
+NONSTRING = [3, None, ("a",), b"a", 3.5, ["a"], {"a": 1}, {"a"}, bytearray(b"a"), ["a", "b"]]  # incl. unhashable ones: rejected before any cache lookup
 # documented illegal (and neighbouring legal) forms that the token grammar below cannot produce
 EXTRA = [
     ("foo,bar", "illegal"), ("foo, bar", "illegal"), ("3,3", "illegal"), ("foo,", "illegal"),
